@@ -291,6 +291,39 @@ ALL_PROPS = ["C%02d" % i for i in range(1, 20)]
 TITLES = {}
 
 
+# real functions each harness family puts under contract (reported in evidence)
+FUNCTIONS = [
+    ("p1_", "countedindex::past"), ("p2_", "countedindex::{is_tagged, rm_tag}"), ("p4_", "countedindex::get_valid_wrap"),
+    ("p5_", "CountedIndex::{new, from_usize, wrap_at, load, load_raw, load_count}"), ("p6_", "Transaction::{get, matches_previous}, CountedIndex::get_previous"),
+    ("p9_", "Transaction::{commit, commit_direct, reload}"), ("p10_", "wait::{check, load_tagless}"), ("p11_", "AtomicSignal::*, LoadedSignal::*"),
+    ("s1_", "MultiQueue::try_send_single, reload_tail_single, ReadCursor::get_max_diff"), ("s2_", "MultiQueue::try_send_multi, reload_tail_multi, ReadCursor::get_max_diff"),
+    ("s3_", "MultiQueue::try_recv, Reader::load_attempt, ReadAttempt::commit_attempt"), ("s4_", "MultiQueue::try_recv_view"),
+    ("s7_", "InnerSend::{try_send, handle_signals}"), ("s8_", "InnerRecv::{try_recv, recv, try_recv_view, recv_view, examine_signals}"),
+    ("s9_", "InnerRecv::add_stream, ReadCursor::add_stream, ReaderGroup::add_stream"), ("s10_clone_send", "Clone for InnerSend"), ("s10_drop_send", "Drop for InnerSend"),
+    ("s10_clone_recv", "Clone for InnerRecv, Reader::dup_consumer"), ("s10_", "Drop for InnerRecv, InnerRecv::{unsubscribe, do_unsubscribe_with}, ReadCursor::remove_reader, ReaderGroup::remove_reader"),
+    ("s11_", "Drop for MultiQueue, Drop for ReadCursor"), ("s12_start_send", "Sink::start_send for &FutInnerSend, FutWait::send_or_park"),
+    ("s12_poll", "Stream::poll for &FutInnerRecv / FutInnerUniRecv, FutWait::{fut_wait, spin, park}"), ("s12_direct", "FutInnerRecv::{try_recv, recv}, FutInnerUniRecv::{try_recv, recv}"),
+    ("s12_recv_blocks", "FutInnerRecv::recv, FutInnerUniRecv::recv, Wait::wait for FutWait"), ("s12_drop_recv", "Drop for FutInnerRecv"), ("s12_drop_unirecv", "Drop for FutInnerUniRecv"),
+    ("s12_drop_send", "Drop for FutInnerSend (InnerSend)"), ("s12_into_single", "FutInnerRecv::into_single"), ("s12_uni_", "FutInnerUniRecv::{into_multi, add_stream_with}"),
+    ("s12w_notify", "FutWait::{notify, notify_all}"), ("s12w_park", "FutWait::{fut_wait, spin, park}"), ("s12w_send_or_park", "FutWait::send_or_park"),
+    ("s13_free", "MemoryManager::{free, start_free}, MemoryManagerInner::{try_freeing, add_freeable}"), ("s13_tokens", "MemoryManager::{get_token, update_token, remove_token}"),
+    ("s13_drop", "Drop for MemoryManager, Drop for MemoryManagerInner"),
+    ("i1_", "MultiQueue::try_send_{single,multi} under the protocol environment"), ("i2_", "MultiQueue::try_recv under the protocol environment"),
+    ("i5_", "InnerRecv::{recv, recv_view} (arguments of Wait::wait) under the protocol environment"), ("i6_", "InnerRecv::add_stream / ReadCursor::add_stream under the protocol environment"),
+    ("i7_", "MultiQueue::try_recv_view under the protocol environment"), ("i12_", "Reader::{remove_consumer, dup_consumer} with a sibling leaving in between"),
+    ("i13_", "Drop for InnerSend with another sender leaving in between"), ("t1_", "InnerSend::try_send (termination, no blocking primitive)"),
+    ("t3_", "InnerRecv::try_recv (termination, no blocking primitive)"), ("t4_", "InnerRecv::try_recv_view (termination, no blocking primitive)"),
+    ("w1_", "Wait::wait for BusyWait"), ("w2_", "Wait::wait for YieldingWait"), ("w3_blocking_wait", "Wait::wait for BlockingWait"), ("w3_blocking_notify", "Wait::notify for BlockingWait"),
+]
+
+
+def functions_of(harness):
+    for pre, f in FUNCTIONS:
+        if harness.startswith(pre):
+            return f
+    return "?"
+
+
 def verus_for(prop):
     return sorted(f for f, ps in VERUS.items() if prop in ps)
 
